@@ -80,6 +80,18 @@ Theorem C13_redeploy_keeps_invariant :
 Proof. exact deploy_inv. Qed.
 Print Assumptions C13_redeploy_keeps_invariant.
 
+(** the window between table->Save() and the creation of the reverse db (a kill
+    there leaves a complete table with the right checksum and no reverse db): the
+    decision model rebuilds the table, hence the reverse db, whatever else is there *)
+Theorem C13_missing_reverse_forces_rebuild :
+  forall crc cyid dinfo_of s d p packs cy a vd fl,
+  lookup s (FDict d) = Some vd ->
+  cids_of s (tables_of d (dinfo_of (fv_cid vd))) = Some fl ->
+  get_tab a (KRev d) = None ->
+  exists bp l, snd (fst (compile crc cyid dinfo_of s d p packs cy a)) = LDict d true true bp :: l.
+Proof. exact missing_reverse_forces_rebuild. Qed.
+Print Assumptions C13_missing_reverse_forces_rebuild.
+
 (** non-vacuity: a workspace meeting the hypotheses deploys (six artefacts) *)
 Theorem C13_nonvacuous :
   wf_srcs demo_list_of demo_info_of demo_srcs /\ snd (demo_deploy demo_srcs []) = true /\
